@@ -181,7 +181,7 @@ func c03ConcBody(px *Proxy, sc c03ConcScenario, seed int64, x *explore.Exec) (*s
 	}
 	out := s.Run()
 	if out.Aborted != "" {
-		return out, [2]string{}, out.Aborted + fmt.Sprintf(" (blocked: %v)", out.Blocked)
+		return out, [2]string{}, concAbortText(out)
 	}
 	return out, [2]string{w.outcome(sc.Reqs[0], resps[0]), w.outcome(sc.Reqs[1], resps[1])}, ""
 }
@@ -270,6 +270,9 @@ func c03Concurrent(c *Ctx) {
 			stats := explore.Run(explore.Config{MaxCost: pass.bound, Deadline: c.Deadline, Shard: c.Shard, Shards: c.Shards, ShardDepth: 2, TolerateDivergence: true, MaxDivergences: 16}, func(x *explore.Exec, own bool) {
 				out, o, berr := c03ConcBody(px, sc, c.Seed, x)
 				if !own {
+					return
+				}
+				if concInconclusive(c, berr) {
 					return
 				}
 				if strings.HasPrefix(berr, "HARNESS") {
